@@ -23,6 +23,7 @@ import (
 
 	"github.com/moov-io/ach"
 
+	"verifharness/internal/gen"
 	"verifharness/internal/hx"
 	"verifharness/internal/rng"
 )
@@ -275,7 +276,10 @@ func damage(r *rng.R, doc map[string]any, mask int) []string {
 				case 2: // indicator dropped
 					delete(e, "addendaRecordIndicator")
 				case 3:
-					e["individualName"] = rng.Pick(r, []string{"", "12", "ACME", "0003", " 002 Receiver Co", "-001Negative", "12345678901234567890123456"})
+					e["individualName"] = rng.Pick(r, []string{"", "12", "ACME", "0003", " 002 Receiver Co", "-001Negative", "12345678901234567890123456", "0001One Addenda"})
+					if r.Chance(1, 2) {
+						delete(e, "addendaRecordIndicator")
+					}
 				}
 			})
 		})
@@ -370,6 +374,7 @@ func post(args []string) {
 	out := fs.String("out", "", "output directory")
 	n := fs.Int("n", 100, "number of generated files")
 	hiddenPath := fs.String("hidden", "", "file with the hidden (struct field) pairs, from the model")
+	repo := fs.String("repo", "", "library working tree (IAT fixtures to graft)")
 	fs.Parse(args)
 	h := readHidden(*hiddenPath)
 	r := rng.FromEnv(0xC07F11E)
@@ -378,8 +383,50 @@ func post(args []string) {
 	defer cases.Close()
 	defer impl.Close()
 	stats := map[string]int{}
+	var graft []any // IAT batches of an earlier document, grafted into later ones (bypasses the generator's own validation)
+	if *repo != "" {
+		// start from a fixture, so that mixed files exist even when the generator cannot build one
+		names, _ := filepath.Glob(filepath.Join(*repo, "test", "testdata", "*.ach"))
+		sort.Strings(names)
+		for _, n := range names {
+			if !strings.Contains(strings.ToLower(filepath.Base(n)), "iat") {
+				continue
+			}
+			var file ach.File
+			guard(func() {
+				fd, err := os.Open(n)
+				if err != nil {
+					return
+				}
+				defer fd.Close()
+				file, _ = ach.NewReader(fd).Read()
+			})
+			if len(file.IATBatches) == 0 {
+				continue
+			}
+			bs, err := json.Marshal(file.IATBatches)
+			if err != nil {
+				continue
+			}
+			if x, err := parseTree(bs); err == nil {
+				if l, ok := x.([]any); ok && len(l) > 0 {
+					graft = l
+					stats["graft-fixture"]++
+					break
+				}
+			}
+		}
+	}
 	for i := 0; i < *n; i++ {
-		f := genFile(r, i)
+		var f *ach.File
+		if i%6 == 5 {
+			// CTX / ATX carry the name-packing heuristic: over-represent them
+			guard(func() {
+				f = gen.FileOfSEC(r, rng.Pick(r, []string{ach.CTX, ach.ATX}), gen.Opts{MaxBatches: 2, MaxEntries: r.Range(1, 4), Addenda: r.Chance(2, 3), Returns: r.Chance(1, 4)})
+			})
+		} else {
+			f = genFile(r, i)
+		}
 		if f == nil {
 			stats["gen-failed"]++
 			continue
@@ -413,6 +460,13 @@ func post(args []string) {
 					verdict = "eq"
 				}
 			}
+			// the writer on the tree of the file value itself (File.ADVControl is not part of a tree: no ADV files here)
+			// (and the layout model renders FileCreationDate/Time in their YYMMDD / HHmm forms only)
+			if e1 == nil && !f.IsADV() && len(f.Header.FileCreationDate) == 6 && len(f.Header.FileCreationTime) == 4 {
+				cases.Printf("%s\n", "W "+dumpStr(reflect.ValueOf(f)))
+				impl.Printf("%s\n", hx.Enc(before))
+				stats["writer-on-tree"]++
+			}
 			stats["roundtrip:"+verdict]++
 			cases.Printf("%s\n", "R "+passedString(passed)+" "+hv+" "+verdict+" "+dumpStr(reflect.ValueOf(f)))
 			impl.Printf("%s\n", verdict)
@@ -429,6 +483,12 @@ func post(args []string) {
 			}
 			for _, d := range damage(r, doc, mask) {
 				stats["damage:"+d]++
+			}
+			if ib, ok := doc["IATBatches"].([]any); ok && len(ib) > 0 {
+				graft = ib
+			} else if graft != nil && !f.IsADV() && r.Chance(1, 5) {
+				stats["damage:graft-iat"]++
+				doc["IATBatches"] = graft
 			}
 			var passed *ach.ValidateOpts
 			switch r.Intn(5) {
